@@ -13,8 +13,36 @@ EXCLUDED_FLAGS = {"nullopt", "seqobj", "reqnull"}
 STR_ROUTES = ("from_str", "try_from_str", "try_from_string_ref", "try_from_string")
 
 
+# targeted mutator "delete a required non-nullable member" for EVERY member type (also the ones whose own constraints typify does not
+# enforce, e.g. sets and free-form values, which keeps them out of the universe-driven part): member type -> a valid sample
+REQDEL = {
+    "string": ({"type": "string"}, "s"), "integer": ({"type": "integer"}, 1), "number": ({"type": "number"}, 1.5), "bool": ({"type": "boolean"}, True),
+    "str_max2": ({"type": "string", "maxLength": 2}, "ab"), "enum_ab": ({"type": "string", "enum": ["a", "b"]}, "a"), "uuid": ({"type": "string", "format": "uuid"}, "00000000-0000-0000-0000-000000000000"),
+    "vec": ({"type": "array", "items": {"type": "integer"}}, [1]), "vec_empty": ({"type": "array", "items": {"type": "integer"}}, []),
+    "set": ({"type": "array", "items": {"type": "integer"}, "uniqueItems": True}, [1, 2]), "set_empty": ({"type": "array", "items": {"type": "string"}, "uniqueItems": True}, []),
+    "map": ({"type": "object", "additionalProperties": {"type": "integer"}}, {"k": 1}), "map_empty": ({"type": "object", "additionalProperties": {"type": "integer"}}, {}),
+    "map_any": ({"type": "object"}, {}), "any": ({}, 1), "tuple": ({"type": "array", "items": [{"type": "integer"}, {"type": "string"}], "minItems": 2, "maxItems": 2}, [1, "a"]),
+    "array2": ({"type": "array", "items": {"type": "integer"}, "minItems": 2, "maxItems": 2}, [1, 2]), "struct": ({"type": "object", "properties": {"q": {"type": "integer"}}}, {}),
+    "ref_struct": ({"$ref": "#/definitions/XObj"}, {"s": "x"}), "ref_set": ({"$ref": "#/definitions/XSet"}, []), "intrinsic_dflt": ({"type": "integer", "default": 0}, 0),
+    "other_dflt": ({"type": "string", "default": "d"}, "d"),
+}
+REQDEL_DEFS = {"XObj": {"type": "object", "properties": {"s": {"type": "string"}}, "required": ["s"]}, "XSet": {"type": "array", "items": {"type": "integer"}, "uniqueItems": True}}
+
+
+def reqdel_cases():
+    out = []
+    for t, (schema, sample) in REQDEL.items():
+        T = {"type": "object", "properties": {"a": schema, "z": {"type": "integer"}}, "required": ["a", "z"]}
+        variant = {"oneOf": [{"type": "object", "properties": {"V": T}, "required": ["V"], "additionalProperties": False}, {"type": "string", "enum": ["U"]}]}
+        for ctx, doc, wrap in (("struct", {"definitions": dict(REQDEL_DEFS, T=T)}, lambda x: x),
+                               ("variant", {"definitions": dict(REQDEL_DEFS, T=variant)}, lambda x: {"V": x})):
+            out.append({"id": "reqdel[%s]@%s" % (t, ctx), "doc": doc, "target": "T", "ff": True, "enf": True, "strish": False, "shape": "reqdel:" + t, "ctx": ctx,
+                        "instances": [wrap({"a": sample, "z": 1}), wrap({"z": 1}), wrap({"a": sample})], "judge": True})
+    return out
+
+
 def cases(tier, seed):
-    return wirefam.enforced_cases(tier)
+    return wirefam.enforced_cases(tier) + reqdel_cases()
 
 
 def _run(cases_, tier):
